@@ -10,7 +10,9 @@ THEOREMS = core.theorems_in(['C14a.lean'], 'Flowdyn.C14') + ['Flowdyn.rhs_period
 AUDIT_IMPORTS = ['Flowdyn.Lemmas.Cyclic1D', 'Flowdyn.Props.C15']
 AUDIT_IMPORTS = AUDIT_IMPORTS + ['Flowdyn.Props.C07c', 'Flowdyn.Props.C14b', 'Flowdyn.Props.C14c']
 THEOREMS = THEOREMS + [t for t in core.theorems_in(['C14b.lean', 'C14c.lean'], 'Flowdyn.C14') if '.ExB.' not in t and '.ExA.' not in t] + ['Flowdyn.C07.run_equivariant', 'Flowdyn.C07.run_equivariant_results', 'Flowdyn.C07.run_equivariant_final']
-PARTIAL = {"systems with implicit integrators": "whole solves on shifted data are the shifted solves for every explicit integrator in 1D (C14b) and in 2D (x, y and both; global or local time step: C14c.solve_shift_2d*, solve_shift_x*, solve_shift_y*), and for the implicit family (implicit, cranknicolson, gear incl. its memory and restart) on scalar models: affine operators with any commuting linear map, and ANY nonlinear operator under signed permutations of the unknowns because the finite-difference Jacobian is exactly equivariant (C14c.solve_theta_shift*, solve_gear_shift*, *_perVec for the model's scalar pipeline, limiters included), under the solver hypotheses of C06b at the visited states; not written: the flattening of systems of equations (Euler, shallow water) onto the vector of unknowns of the implicit model, and implicit integrators in 2D - checked by the sweep"}
+AUDIT_IMPORTS = AUDIT_IMPORTS + ['Flowdyn.Props.C14d']
+THEOREMS = THEOREMS + [t for t in core.theorems_in(['C14d.lean'], 'Flowdyn.C14d') if '.Ex.' not in t]
+PARTIAL = {"systems with implicit integrators": "whole solves on shifted data are the shifted solves for every explicit integrator in 1D (C14b) and in 2D (x, y and both; global or local time step: C14c.solve_shift_2d*, solve_shift_x*, solve_shift_y*), and for the implicit family (implicit, cranknicolson, gear incl. its memory and restart) on scalar models: affine operators with any commuting linear map, and ANY nonlinear operator under signed permutations of the unknowns because the finite-difference Jacobian is exactly equivariant (C14c.solve_theta_shift*, solve_gear_shift*, *_perVec for the model's scalar pipeline, limiters included), under the solver hypotheses of C06b at the visited states; SYSTEMS (C14d): the flattening unknown = cell*neq + equation is a linear bijection, the cell shift is the permutation j -> (j + k*neq) mod (n*neq) of the unknowns, np.repeat(dt_cell, neq) and the code's per-equation perturbation rule epsdiff*(mean|q_a| or 1.0) are shift-covariant, hence whole solves of implicit / cranknicolson / gear (global or local time step, restart memory) on systems commute with the cell shift for any system operator that does (solve_theta_shift_sys, solve_gear_shift_sys), instantiated for the model's periodic uniform pipeline with any scheme/flux (perSys) and its Euler and shallow-water kernels (solve_*_shift_euler, solve_*_shift_sw); solver hypotheses at the visited states as in C14c; not written: implicit integrators in 2D - checked by the sweep"}
 LEVEL_NOTE = "1D: refinement of the periodic uniform pipeline to a cyclic (seam-free) pipeline for every n>=1, hence shift-equivariance for any reconstruction, cons2prim and pointwise flux"
 
 
